@@ -169,6 +169,19 @@ func pairStates() []pairState {
 					stateOp("sc0-IDLE", 0, connectivity.Idle),
 				}
 			}},
+		// round-robin BIND while the pool can still grow
+		{name: "rr-growth", cfg: poolCfg{Name: "pairs rr-growth min=1 max=2 wm=1", Min: 1, Max: 2, WM: 1, RR: true,
+			Setup: append(readyPool(1), "pick(plain,,L,g)")},
+			ops: func(w *poolWorld) []pairOp {
+				return []pairOp{
+					pickOp("bindA", "bind", "", "L", false, "ok:k1"),
+					pickOp("bindB", "bind", "", "L", false, "ok:k2"),
+					pickOp("plainL", "plain", "", "L", false, "ok"),
+					doneOp("c0-ok", 0, "ok"),
+					resolveOp("resolve-a2", "a2"),
+					stateOp("sc0-IDLE", 0, connectivity.Idle),
+				}
+			}},
 		{name: "fallback", cfg: poolCfg{Name: "pairs fallback pool=3", Min: 3, Max: 3, WM: 100, Fallback: true,
 			Setup: append(readyPool(3), "pick(bind,,L,g)", "done(0,ok:k1+k2)", "state(1,IDLE)", "state(1,CONNECTING)", "state(1,READY)", "state(0,IDLE)")},
 			ops: func(w *poolWorld) []pairOp {
